@@ -2,6 +2,7 @@ package props
 
 import (
 	"bytes"
+	"context"
 	stdjson "encoding/json"
 	"fmt"
 	"math/rand"
@@ -316,22 +317,56 @@ func wellFormed(v reflect.Value, depth int) string {
 }
 
 func c07Case(c *rt.Ctx, sub int, t reflect.Type, fdesc string, doc []byte, seed int64, stream bool) {
+	// the entry point follows the sub-case number; the signature keeps the family name (all buffer
+	// entry points share one decoder, as do the stream ones)
 	entry := "Unmarshal"
+	variant := []string{"Unmarshal", "UnmarshalContext", "UnmarshalNoEscape", "UnmarshalWithOption"}[sub%4]
 	if stream {
 		entry = "Decoder"
+		variant = []string{"Decode", "DecodeContext", "DecodeWithOption"}[sub%3]
 	}
 	gd, sd := reflect.New(t), reflect.New(t)
 	paint(gd.Elem(), seed)
 	paint(sd.Elem(), seed)
+	// the input lives in the middle of a larger array: bytes before and behind it are canaries too
+	arena := make([]byte, len(doc)+64)
+	for i := range arena {
+		arena[i] = 0xC7
+	}
+	in := arena[32 : 32+len(doc) : len(arena)]
+	copy(in, doc)
 	var gerr error
 	pan, msg, frame := rt.Guard(func() {
-		if stream {
-			gerr = gojson.NewDecoder(bytes.NewReader(doc)).Decode(gd.Interface())
-		} else {
-			gerr = gojson.Unmarshal(doc, gd.Interface())
+		switch variant {
+		case "Unmarshal":
+			gerr = gojson.Unmarshal(in, gd.Interface())
+		case "UnmarshalContext":
+			gerr = gojson.UnmarshalContext(context.Background(), in, gd.Interface())
+		case "UnmarshalNoEscape":
+			gerr = gojson.UnmarshalNoEscape(in, gd.Interface())
+		case "UnmarshalWithOption":
+			gerr = gojson.UnmarshalWithOption(in, gd.Interface())
+		case "Decode":
+			gerr = gojson.NewDecoder(bytes.NewReader(in)).Decode(gd.Interface())
+		case "DecodeContext":
+			gerr = gojson.NewDecoder(bytes.NewReader(in)).DecodeContext(context.Background(), gd.Interface())
+		default:
+			gerr = gojson.NewDecoder(bytes.NewReader(in)).DecodeWithOption(gd.Interface())
 		}
 	})
 	c.Eval(1)
+	for i, b := range arena {
+		inside := i >= 32 && i < 32+len(doc)
+		if (inside && b != doc[i-32]) || (!inside && b != 0xC7) {
+			where := "input-bytes"
+			if !inside {
+				where = "bytes-around-the-input"
+			}
+			c.Violate(rt.Violation{Monitor: "canary", Entry: entry, Kind: "input-arena-written", Ctx: variant + ":" + where,
+				Detail: fmt.Sprintf("byte %d of the arena (input occupies 32..%d) changed to %#x while decoding %s | type %s", i, 32+len(doc), b, rt.Q(doc), t), Sub: sub})
+			return
+		}
+	}
 	input := map[string]any{"type": t.String(), "doc": string(doc), "entry": entry}
 	if pan {
 		c.Obs("panics_seen_judged_by_C06", 1)
